@@ -38,6 +38,9 @@ type Event struct {
 type Fate struct {
 	Drop  bool
 	Delay time.Duration
+	// Replace, if not nil, is delivered instead of the message (a relay that
+	// corrupts what it carries).
+	Replace []byte
 }
 
 type stream struct {
@@ -367,6 +370,9 @@ func (ws *sendStream) Send(box *hashmailrpc.CipherBox) error {
 		return nil
 	}
 	r.emitMsg("msg", sid, len(msg), "", msg)
+	if f.Replace != nil {
+		msg = append([]byte(nil), f.Replace...)
+	}
 	s := ws.s
 	if f.Delay > 0 {
 		r.mu.Unlock()
